@@ -22,8 +22,16 @@ type receivePayloadQueue struct {
 func newReceivePayloadQueue(maxTSNOffset uint32) *receivePayloadQueue {
 	maxTSNOffset = ((maxTSNOffset + 63) / 64) * 64
 
+	// The bitmask is a ring indexed by (tsn/64) % len(tsnBitmask). Its length
+	// must be a power of two (a divisor of 2^32/64) so that the index stays
+	// continuous when the TSN wraps around at 2^32.
+	nWords := 1
+	for nWords < int(maxTSNOffset/64) {
+		nWords <<= 1
+	}
+
 	return &receivePayloadQueue{
-		tsnBitmask:   make([]uint64, maxTSNOffset/64),
+		tsnBitmask:   make([]uint64, nWords),
 		maxTSNOffset: maxTSNOffset,
 	}
 }
